@@ -20,4 +20,6 @@ impl PartialEqSpecImpl for Value {
 //@verify context.has_function
 //@verify context.get_function
 //@verify context.new_inner_scope
+//@include prelude/registry_spec.rs
+//@verify context.default
 //@include prelude/tail_std.rs
